@@ -157,17 +157,30 @@ def run_spec(spec, props=("C20",)):
                 moves = [(e, f) for e in es for f in nonedges]
                 if n > 5:
                     moves = moves[:8]
+                edits = []
                 for (e, f) in moves:
                     for (rem, add, what) in ((e, f, "moved"), (f, e, "moved back")):
-                        G.remove_edge(*rem); G.add_edge(*add)
+                        edits.append((("move", rem, add), "edge %r %s to %r" % (e, what, f)))
+                # and the node set changes on the same object: a new isolated node, an edge to it, the node removed again
+                edits += [(("addnode", n), "node %d added" % n), (("addedge", (0, n)), "edge (0, %d) added" % n), (("delnode", n), "node %d removed again" % n)]
+                for (ed, descr) in edits:
+                    for _once in (0,):
+                        if ed[0] == "move":
+                            G.remove_edge(*ed[1]); G.add_edge(*ed[2])
+                        elif ed[0] == "addnode":
+                            G.add_node(ed[1])
+                        elif ed[0] == "addedge":
+                            G.add_edge(*ed[1])
+                        else:
+                            G.remove_node(ed[1])
                         A.evals += 1
-                        A.trans.add((n, tuple(es), e, f, what))
+                        A.trans.add((n, tuple(es), ed))
                         d2 = dict(G.degree()); h2 = {}
                         for v, k in d2.items():
                             h2[k] = h2.get(k, 0) + 1
-                        P2 = {k: Fraction(c, n) for k, c in h2.items()}
-                        A.states.add((n, tuple(sorted(tuple(sorted(x)) for x in G.edges()))))
-                        tag2 = "%s, then edge %r %s to %r in place" % (tag, e, what, f)
+                        P2 = {k: Fraction(c, G.order()) for k, c in h2.items()}
+                        A.states.add((G.order(), tuple(sorted(tuple(sorted(x)) for x in G.edges()))))
+                        tag2 = "%s, then %s in place" % (tag, descr)
                         try:
                             got = EoN.get_Pk(G)
                         except Exception as ex:
